@@ -74,6 +74,10 @@ type Lookup struct {
 
 	freeRand  *gen.Rand
 	freeDelay func() time.Duration
+	// stopInside > 0 (free-running only): the stopInside-th query calls Stop from inside DoQuery, and
+	// that query and every later one then wait for their context to be cancelled.
+	stopInside     int
+	stopInsideDone chan struct{}
 	// SlowFilter makes the node filter (which the operation calls with its lock held) dawdle now and
 	// then, so that other goroutines queue up on the operation's lock.
 	SlowFilter bool
@@ -188,6 +192,36 @@ func (l *Lookup) doQuery(ctx context.Context, a krpc.NodeAddr) traversal.QueryRe
 		l.find("C03", "query-started-after-stop", fmt.Sprintf("query to %v started after Stop", addr))
 	}
 	l.calls = append(l.calls, c)
+	if l.Free && l.stopInside > 0 && len(l.calls) >= l.stopInside {
+		// The application stops the lookup from inside one of its queries (it found what it was
+		// looking for). That query, and every query that is in flight then or is started by a fan-out
+		// already under way, has its context cancelled: none of them is answered, each waits for that.
+		idx := len(l.calls)
+		res := l.answer(addr, true)
+		l.mu.Unlock()
+		if idx == l.stopInside {
+			l.Op.Stop()
+			close(l.stopInsideDone)
+		}
+		select {
+		case <-ctx.Done():
+		case <-time.After(15 * time.Second):
+			<-l.stopInsideDone
+			select {
+			case <-ctx.Done():
+			case <-time.After(5 * time.Second):
+				l.mu.Lock()
+				l.find("C04", "query-in-flight-at-stop-never-cancelled", fmt.Sprintf(
+					"free-running: query #%d to %v was in flight when query #%d called Stop from inside DoQuery; 20s later its context is still live", idx, addr, l.stopInside))
+				l.mu.Unlock()
+			}
+		}
+		l.mu.Lock()
+		l.active--
+		c.exit.Store(l.tick.Add(1))
+		l.mu.Unlock()
+		return res
+	}
 	if l.Free {
 		d := l.freeDelay()
 		res := l.answer(addr, false)
@@ -459,6 +493,8 @@ type Outcome struct {
 	Err         error
 	MaxActive   int
 	Queries     int
+	// lookups in which a query called Stop from inside DoQuery
+	StopsFromInside int
 }
 
 type Policy struct {
